@@ -6,7 +6,7 @@ VARIABLES c
 NoLit == [pre |-> FALSE, post |-> FALSE, nph |-> 1, ref |-> "next", ty |-> "Display", mod |-> "none"]
 Lits == [pre : BOOLEAN, post : BOOLEAN, nph : 1..2,
          ref : {"next", "pos0", "pos1", "pos2", "name_field", "name_other"},
-         ty : PhTypes, mod : {"none", "ws", "width", "fill", "left", "center", "right", "sign", "minus", "alt", "zero", "prec"}]
+         ty : PhTypes, mod : {"none", "ws", "colon", "colon_ws", "width", "fill", "left", "center", "right", "sign", "minus", "alt", "zero", "prec"}]
 ArgForms == {"none", "pos_field", "pos_expr", "named_match", "named_nomatch", "two"}
 
 Shareds == {"none", "bare_variant", "wrap"}
@@ -19,8 +19,9 @@ Interesting(x) ==
     /\ (x.lit.post => x.lit.nph = 1 /\ x.lit.mod = "none")
     /\ (x.lit.nph = 2 => x.lit.mod = "none" /\ x.lit.ref \in {"next", "pos0"})
     /\ (x.args = "two" <=> x.nfields = 2 /\ x.hasAttr)
+    /\ (x.lit.mod \in {"colon", "colon_ws"} => x.lit.ty = "Display")    \* an EMPTY spec: with a type it is "none"/"ws"
     /\ (x.named => x.lit.ref = "name_field" \/ ~x.hasAttr)          \* field names only matter there
-    /\ (x.lit.mod \notin {"none", "ws"} => x.args \in {"none", "pos_field"})
+    /\ (x.lit.mod \notin Blank => x.args \in {"none", "pos_field"})
     /\ ((x.lit.pre \/ x.lit.post \/ x.lit.nph = 2) => x.lit.ty \in {"Display", "Debug"} /\ x.D \in {"Display", "Debug"})
     /\ (x.sh # "none" => /\ x.D # "Debug"                        \* no enum-level format on Debug (C07)
                           /\ x.lit.mod = "none" /\ ~x.lit.pre /\ ~x.lit.post /\ x.lit.nph = 1
